@@ -18,7 +18,8 @@ EXPLANATION = (
     "own change record ensures it; the server force-writes such a record for every new entity. R5: the two directions of the entity "
     "map are mutated together with swapped key/value; a despawn removes the map entry it despawns. R6: despawn / removal records are written for every client that "
     "may hold the entity (filter accepts Visible; Gained may be left out only while the state-machine exploration establishes `Gained => not held`), change records "
-    "for every not-hidden client. R7: first-sight completeness (rules/first_sight.py).")
+    "for every not-hidden client. R7: first-sight completeness (rules/first_sight.py)."
+    " R7 includes the empty record forced for every entity the client does not hold yet. R13 (= C08.R5): visibility loss/gain become despawn/full send for every call sequence.")
 NOT_DECIDED = "atomicity and ordering over arbitrary histories beyond the cross-buffer rule R9 (D12, found and fixed) and the visibility state machine (C08.R5)"
 TRUSTED_BASE = ["bitflags iter_names yields named flags in declaration order", "the update channel is reliable and ordered (C01.R8)"]
 
@@ -157,7 +158,7 @@ def r2_sections(ctx):
                                     touched.add(e[2])
             content = {f for f in touched if not f.endswith("_len")}
             exp = val_field.get(v)
-            ctx.check(content == {exp}, "Updates::send/bb%d/arm-%s" % (sbb, v), site_of(us, tb),
+            ctx.check(content == {exp}, ctx.nth("Updates::send/arm-%s" % v), site_of(us, tb),
                       "the arm for flag value %s (%s) touches buffer(s) %s" % (v, exp, sorted(content)), "serialises `%s`" % exp)
     # reader arms
     au = ctx.fn("client::apply_update_message")
@@ -711,6 +712,13 @@ def r20_unconditional_mutators(ctx):
     mutators.run_for(ctx, "C03")
 
 
+def r_visibility_state_machine(ctx):
+    """Visibility loss and gain are turned into a despawn and a full send for every call sequence (same rule as C08.R5: finite abstract
+    interpretation of ClientVisibility plus the call protocol it assumes)."""
+    import rules.C08 as C08
+    C08.r5_state_machine(ctx)
+
+
 RULES = [
     ("C03.R1", "one update message per client and tick (single writer of the update channel)", r1_one_update_message, 4, ["default", "all-features", "server-only"]),
     ("C03.R2", "update-message sections: writer, reader and flags agree on order, content and framing", r2_sections, 16, ["default", "all-features"]),
@@ -725,5 +733,6 @@ RULES = [
     ("C03.R11", "element counters that frame the message sections count every record on every path (also when byte ranges are merged)", r11_record_counters, 6, ["default", "all-features", "server-only"]),
     ("C03.R12", "removal/despawn buffers are filled every frame and consumed once per tick after their last reader (same rule as C01.R6)", r12_tick_scoped_buffers, 10, ["default", "all-features", "server-only"]),
     ("C03.R20", "mutators this property relies on always perform their effect (rules/mutators.py): no early return, no guard outside the allowed set", r20_unconditional_mutators, 3, ["default", "all-features"]),
+    ("C03.R13", "visibility loss/gain become despawn/full send for every call sequence (same rule as C08.R5)", r_visibility_state_machine, 25, ["default", "all-features", "server-only"]),
 ]
 THOROUGH_CONFIGS = ["default", "all-features", "server-only", "client-only"]
